@@ -150,3 +150,26 @@ Theorem c19_rounds_without_barrier_refuted :
   aa_ok md_zone strict_zone [1; 2; 3] /\ ~ aa_ok md_zone strict_zone [3; 4; 5].
 Proof. exact rounds_without_barrier_refuted. Qed.
 Print Assumptions c19_rounds_without_barrier_refuted.
+
+(* swapNode, all three outcomes (refused / election failed / swapped): the controller's in-memory metadata and the
+   stored metadata are equal afterwards whenever they were equal before — the balancer plans every later move from the
+   ensemble the controller will apply it to. *)
+Theorem c19_swap_memory_equals_status : forall v c from to election_ok,
+  ctl_mem c = ctl_stored c ->
+  ctl_mem (fst (swap_node_ctl v c from to election_ok)) = ctl_stored (fst (swap_node_ctl v c from to election_ok)).
+Proof. exact swap_node_ctl_coherent. Qed.
+Print Assumptions c19_swap_memory_equals_status.
+
+(* Rolling the memory back after a failed election (not what the code does) separates memory and status, and the next
+   replacement planned from the status breaks a strict rule. *)
+Theorem c19_swap_rollback_refuted :
+  let c0 := mkCtl (mkMd [1; 2; 3] []) (mkMd [1; 2; 3] []) in
+  let c1 := fst (swap_node_ctl_rollback Fixed c0 1 4 false) in
+  let c2 := fst (swap_node_ctl_rollback Fixed c1 2 5 true) in
+  m_ens (ctl_stored c1) = [2; 3; 4] /\ m_ens (ctl_mem c1) = [1; 2; 3] /\
+  In (Swap 5) (swap_shard Fixed (mkEnv md_zone5 strict_zone (Some [5; 1; 3; 4]) (Some 0)) [1; 3; 4; 5]
+                          (m_ens (ctl_stored c1)) 2) /\
+  m_ens (ctl_stored c2) = [1; 3; 5] /\
+  aa_ok md_zone5 strict_zone [2; 3; 4] /\ ~ aa_ok md_zone5 strict_zone [1; 3; 5].
+Proof. exact swap_rollback_refuted. Qed.
+Print Assumptions c19_swap_rollback_refuted.
